@@ -25,6 +25,7 @@ import (
 	"strings"
 	"sync"
 	"sync/atomic"
+	"sort"
 	"time"
 
 	"github.com/paulmach/osm"
@@ -286,6 +287,7 @@ func (s *Space) variants() []Variant {
 	}
 	vs = append(vs,
 		ext(Variant{Name: "shuffled-histories", Thr: defaultThreshold, Shuffled: true, KeepRefs: true}),
+		ext(Variant{Name: "histories-from-one-element-list", Thr: defaultThreshold, AsList: true, KeepRefs: true}),
 		ext(Variant{Name: thr2name + "+shuffled-histories+ignore-inconsistency", Thr: thr2, SetThr: true, IgnInc: true, Shuffled: true}),
 		ext(Variant{Name: "parent-suffix", Thr: defaultThreshold, Suffix: true, KeepRefs: true}),
 		ext(Variant{Name: "parent-suffix+ignore-inconsistency", Thr: defaultThreshold, Suffix: true, IgnInc: true}),
@@ -746,7 +748,7 @@ func (k *worker) evalVariant(v Variant, times []time.Time) *truth {
 	// one datasource per state and withheld child (the library does not modify
 	// the elements; it sorts the history slices, which are sorted already)
 	ds := k.ds[v.Withhold+1]
-	if v.Strip != stripNone || v.Reversed || v.Shuffled || v.Late > 0 {
+	if v.Strip != stripNone || v.Reversed || v.Shuffled || v.Late > 0 || v.AsList {
 		// a datasource of its own: commit times stripped (on copies of the elements),
 		// leading versions dropped, histories reordered
 		withhold := []osm.FeatureID{f.Parent}
@@ -765,6 +767,9 @@ func (k *worker) evalVariant(v Variant, times []time.Time) *truth {
 			ds = reversed(ds)
 		} else if v.Shuffled {
 			ds = shuffled(ds)
+		}
+		if v.AsList {
+			ds = asList(ds)
 		}
 	} else if ds == nil {
 		if v.Withhold >= 0 {
@@ -1027,6 +1032,49 @@ func reversed(ds *osm.HistoryDatasource) *osm.HistoryDatasource {
 		ds.Relations[id] = r
 	}
 	return ds
+}
+
+// asList rebuilds the datasource the way an application does that holds the
+// histories as one element list (a history extract): every version goes into one
+// osm.OSM, the histories dealt out one version at a time in id order (so the
+// versions of an id are never adjacent), and OSM.HistoryDatasource() sorts them
+// into histories again.
+func asList(ds *osm.HistoryDatasource) *osm.HistoryDatasource {
+	o := &osm.OSM{}
+	var nids []osm.NodeID
+	for id := range ds.Nodes {
+		nids = append(nids, id)
+	}
+	sort.Slice(nids, func(i, j int) bool { return nids[i] < nids[j] })
+	var wids []osm.WayID
+	for id := range ds.Ways {
+		wids = append(wids, id)
+	}
+	sort.Slice(wids, func(i, j int) bool { return wids[i] < wids[j] })
+	var rids []osm.RelationID
+	for id := range ds.Relations {
+		rids = append(rids, id)
+	}
+	sort.Slice(rids, func(i, j int) bool { return rids[i] < rids[j] })
+	for vi, more := 0, true; more; vi++ {
+		more = false
+		for _, id := range nids {
+			if h := ds.Nodes[id]; vi < len(h) {
+				o.Nodes, more = append(o.Nodes, h[vi]), true
+			}
+		}
+		for _, id := range wids {
+			if h := ds.Ways[id]; vi < len(h) {
+				o.Ways, more = append(o.Ways, h[vi]), true
+			}
+		}
+		for _, id := range rids {
+			if h := ds.Relations[id]; vi < len(h) {
+				o.Relations, more = append(o.Relations, h[vi]), true
+			}
+		}
+	}
+	return o.HistoryDatasource()
 }
 
 // shuffled returns a datasource whose histories are fresh slices in neither
